@@ -773,7 +773,21 @@ def mon_c09(tr: Trace) -> list[Violation]:
 # ------------------------------------------------------------------ C10
 
 
-def mon_c10(tr: Trace) -> list[Violation]:
+def c10_waiter_users(tr: Trace) -> dict[tuple, set]:
+    """(step, waiter id) -> input-event uids of the invocations that used it"""
+    users: dict[tuple, set] = {}
+    for rec in tr.steps:
+        if rec[0] in ("waited", "wait_timeout"):
+            users.setdefault((rec[1], rec[5]["wid"]), set()).add(rec[2])
+    for c in _runner_calls(tr):
+        if c.kind == "reduce" and isinstance(c.tick, T.TickStepResult):
+            for r in c.tick.result:
+                if isinstance(r, R.AddWaiter):
+                    users.setdefault((c.tick.step_name, r.waiter_id), set()).add(getattr(c.tick.event, "uid", None))
+    return users
+
+
+def mon_c10(tr: Trace, earlier_users: dict[tuple, set] | None = None) -> list[Violation]:
     """wait_for_event on real runs: delivered event matches, one completion / one TimeoutError per wait,
     waiter_event once per waiter creation, nothing for resolved waiters."""
     out: list[Violation] = []
@@ -789,7 +803,14 @@ def mon_c10(tr: Trace) -> list[Violation]:
                 out.append(Violation(sig, f"step {step} waited for type {info['want_ty']} k={info['want_k']} and received type {info['got_ty']} k={info['got_k']}", case))
         elif kind == "wait_timeout":
             per_wait.setdefault((step, uid, rn, info["wid"]), []).append(("timeout", info))
+    # a waiter id used by two different invocations of a step at once is one shared waiter entry (the later
+    # AddWaiter replaces the earlier one): outside "per wait" — only unshared ids are counted
+    users = c10_waiter_users(tr)
+    for k, v in (earlier_users or {}).items():
+        users.setdefault(k, set()).update(v)
     for key, lst in per_wait.items():
+        if len(users.get((key[0], key[3]), ())) > 1:
+            continue
         if len(lst) > 1:
             kinds = [k for k, _ in lst]
             out.append(Violation("C10/resumed_more_than_once", f"wait {key} of one invocation finished {len(lst)} times: {kinds}", case))
